@@ -164,6 +164,22 @@ func main() {
 			return err
 		}},
 	}
+	entries = append(entries, entry{"Fitness_default-several-expected-values", func(bm *bondmachine.Bondmachine) error {
+		// several expected values, one of them at a tick the run never reaches; a short run in which
+		// the outputs never become valid
+		in := new(simbox.Simbox)
+		exp := new(simbox.Simbox)
+		for _, r := range []string{"absolute:5:set:o0:6", "absolute:30:set:o0:6", "absolute:31:set:o0:7", "absolute:500:set:o0:1"} {
+			if err := exp.Add(r); err != nil {
+				return err
+			}
+		}
+		if _, err := bm.Fitness_default(in, exp, 40); err != nil {
+			return err
+		}
+		_, err := bm.Fitness_default(in, exp, 3)
+		return err
+	}})
 	sizes := []int{1, 3, 6}
 	batches := []int{1, 8, 64, 256}
 	if tier == "thorough" {
